@@ -990,4 +990,49 @@ Proof.
     rewrite (mflow_ext pk h h2 kb ophs orows); [reflexivity| |exact LENo].
     intros x Hx. unfold rdvec. rewrite OLDB; auto. apply INB. simpl; auto.
 Qed.
+
+(* copy_like for every kind x kind x package combination *)
+Theorem copy_like_all h a b h' a' e :
+  hwf h -> swf h a -> swf h b -> stream_ok h a -> stream_ok h b -> disjoint (footprint h a) (footprint h b) ->
+  (stream_pkg h a <> stream_pkg h b -> forall x, In x (data_rows h b) ->
+     missing (chems pk (stream_pkg h a)) (chems pk (stream_pkg h b)) (rdvec h x) = false) ->
+  copy_like pk h a b = (h', a', e) ->
+  e = None /\ (forall p c, (phase_flow pk h' a' p c == phase_flow pk h b p c)%Q) /\
+  rdtc h' (tc a') = rdtc h (tc b) /\ obs h' b = obs h b.
+Proof.
+  intros W SA SB OA OB D MISS CL.
+  pose proof OA as [_ OA']. pose proof OB as [_ OB'].
+  destruct (nth_error h (imol a)) as [[| | | |ka pba da|ka phs d]|] eqn:Ha; try contradiction.
+  - (* single-phase target *)
+    assert (PKA : stream_pkg h a = ka) by (unfold stream_pkg; rewrite Ha; reflexivity). rewrite PKA in MISS.
+    destruct (nth_error h (imol b)) as [[| | | |kb pbb db|kb ophs od]|] eqn:Hb; try contradiction.
+    + destruct OB' as [(p & Hp & PP) (v & Hv)].
+      assert (PKB : stream_pkg h b = kb) by (unfold stream_pkg; rewrite Hb; reflexivity). rewrite PKB in MISS.
+      assert (RP : rdphase h pbb = p) by (unfold rdphase; rewrite Hp; reflexivity).
+      assert (VP : valid_phase (rdphase h pbb) = true) by (rewrite RP; apply plain_valid; auto).
+      assert (MS : ka <> kb -> missing (chems pk ka) (chems pk kb) (rdvec h db) = false).
+      { intros N. apply MISS; auto. unfold data_rows. rewrite Hb. simpl; auto. }
+      destruct (copy_like_ss pk h a b ka pba da kb pbb db h' a' e W SA SB D Ha Hb VP MS CL)
+        as (E & Ea & PH & TC & FL & OBS & CELL).
+      subst a'. split; auto. split; [|split; auto].
+      intros q c. unfold phase_flow. rewrite CELL, Hb, PH. destruct (Nat.eqb (rdphase h pbb) q); [apply FL|reflexivity].
+    + destruct OB' as [MB NE]. pose proof MB as [_ Hod GB LENo NDo VECo].
+      assert (PKB : stream_pkg h b = kb) by (unfold stream_pkg; rewrite Hb; reflexivity). rewrite PKB in MISS.
+      destruct ophs as [|p [|p2 l]]; [congruence| |].
+      * destruct (rdrows h od) as [|rb [|rb2 lr]] eqn:RB; simpl in LENo; try discriminate.
+        assert (PP : plainp p). { destruct GB as [_ PL]. inversion PL; auto. }
+        assert (MS : ka <> kb -> missing (chems pk ka) (chems pk kb) (rdvec h rb) = false).
+        { intros N. apply MISS; auto. unfold data_rows. rewrite Hb, RB. simpl; auto. }
+        destruct (copy_like_s_m1 pk h a b ka pba da kb p od rb h' a' e W SA SB D Ha Hb RB (plain_valid _ PP) MS CL)
+          as (E & Ea & PH & TC & FL & OBS & CELL).
+        subst a'. split; auto. split; [|split; auto].
+        intros q c. unfold phase_flow. rewrite CELL, Hb, PH, RB. simpl. rewrite (Nat.eqb_sym p q).
+        destruct (Nat.eqb q p); [apply FL|reflexivity].
+      * assert (L2 : 2 <= length (p :: p2 :: l)) by (simpl; lia).
+        assert (MS : ka <> kb -> forall x, In x (rdrows h od) -> missing (chems pk ka) (chems pk kb) (rdvec h x) = false).
+        { intros N x Hx. apply MISS; auto. unfold data_rows. rewrite Hb. exact Hx. }
+        exact (copy_like_s_m2 h a b ka pba da kb (p :: p2 :: l) od h' a' e W SA SB OA OB D Ha Hb L2 MS CL).
+  - assert (PKA : stream_pkg h a = ka) by (unfold stream_pkg; rewrite Ha; reflexivity). rewrite PKA in MISS.
+    exact (copy_like_to_multi h a b ka phs d h' a' e W SA SB OA OB D Ha MISS CL).
+Qed.
 End StreamLevel.
